@@ -86,8 +86,8 @@ func Main(tier, replay string) {
 			rep := func(oracle, what string, extra ...string) {
 				run.Report(core.Violation{Oracle: oracle, Features: v.Feat(extra...), What: what, Case: v.Case})
 			}
-			if d30, d31 := v.Docs["3.0.0"], v.Docs["3.1.0"]; d30 != nil && d31 != nil && !seenProject[v.Outcome.Dir] {
-				seenProject[v.Outcome.Dir] = true
+			if d30, d31 := v.Docs["3.0.0"], v.Docs["3.1.0"]; d30 != nil && d31 != nil && !seenProject[f.Name+v.Outcome.Dir] {
+				seenProject[f.Name+v.Outcome.Dir] = true
 				for _, sct := range []struct {
 					name string
 					a, b any
